@@ -345,7 +345,7 @@ Proof. exact built_answers. Qed.
 Print Assumptions built_object_answers.
 
 (* C02 (a) at any moment: same hypotheses as ll1_reported_partial *)
-Theorem ll1_reported_any_moment : forall ug terminals start fuel inputs ops n w b p,
+Theorem ll1_reported_any_moment_partial : forall ug terminals start fuel inputs ops n w b p,
   build ug terminals w start = Ok p ->
   wf_grammar (p_grammar p) (p_terminals p) (p_start p) = true ->
   p_grammar p = ugram ug ->
@@ -358,11 +358,11 @@ Proof.
   rewrite (is_ambiguous_any_moment_l ug terminals start fuel inputs ops n w b p HB Ho Hb).
   apply (ll1_reported_partial ug terminals w start p); assumption.
 Qed.
-Print Assumptions ll1_reported_any_moment.
+Print Assumptions ll1_reported_any_moment_partial.
 
 (* C02 (b) at any moment: same hypotheses as ll1_complete_partial; whenever, in whatever
    program, the object parses a sentence (with a large enough budget) it returns its derivation *)
-Theorem ll1_complete_any_moment : forall ug terminals start w p inp d,
+Theorem ll1_complete_any_moment_partial : forall ug terminals start w p inp d,
   build ug terminals w start = Ok p ->
   p_sfxs p = [] ->
   wf_grammar (p_grammar p) (p_terminals p) (p_start p) = true ->
@@ -387,7 +387,7 @@ Proof.
   rewrite (parse_any_moment_l ug terminals start fuel inputs ops n w i inp r p HB Hi Ho Hb).
   destruct (K fuel Hf) as [t [P E]]. exists t. split; [|exact E]. exact P.
 Qed.
-Print Assumptions ll1_complete_any_moment.
+Print Assumptions ll1_complete_any_moment_partial.
 
 (* ------------------------------------------------------------------ *)
 (* 6. the hypotheses are satisfiable: the grammar of the repaired defect
